@@ -53,6 +53,7 @@ Definition mk_tag (mk : modk) : Z :=
   match mk with
   | MReduce => 1 | MScan => 2 | MFold => 3 | MRows => 4 | MEach => 5 | MInventory => 6
   | MTable => 7 | MTuples => 8 | MGroup => 9 | MPartition => 10 | MSpawn => 11 | MPool => 12
+  | MRepeat => 13
   | _ => 0 end%Z.
 (** values popped / pushed by the modifier as a whole (run_prim.rs / algorithm/{zip,reduce,loops,table,groups}.rs) *)
 Definition iter_ao (mk : modk) (sg : sig) : option (nat * nat) :=
@@ -63,7 +64,16 @@ Definition iter_ao (mk : modk) (sg : sig) : option (nat * nat) :=
              else if sa sg <=? so sg then Some (sa sg, so sg + 1 - sa sg) else Some (sa sg, so sg)
   | MGroup | MPartition => Some (Nat.max (sa sg) 1 + 1, so sg)
   | MSpawn | MPool => Some (sa sg, 1)
+  (* repeat: the count, then the operand's arguments; excess outputs are collected into arrays *)
+  | MRepeat => Some (1 + sa sg, if sa sg <? so sg then so sg - sa sg else so sg)
   | _ => None end.
+
+(** Uiua::without_fill around one run *)
+Definition without_fill_body (run : rt -> res) (s : rt) : res :=
+  match run (RT (stk s) (und s) (fills s) (length (fills s) :: fbs s) (depth s)) with
+  | Ok s1 => Ok (RT (stk s1) (und s1) (fills s1) (tl (fbs s1)) (depth s1))
+  | Err c s1 => Err c (RT (stk s1) (und s1) (fills s1) (tl (fbs s1)) (depth s1))
+  | r => r end.
 
 Fixpoint iter_loop (body : rt -> res) (argsof : Z -> list sval -> option (list sval)) (fa fo : nat)
     (k : nat) (i : Z) (cur : rt) (acc : list sval) {struct k} : res * list sval :=
@@ -305,6 +315,11 @@ Section Exec.
             match iter_ao mk sg with
             | Some (na, no) => iter_exec (ex f) (mk_tag mk) na no (sa sg) (so sg) s
             | None => Unk end
+        | MRepeat, [(sg, f)] =>
+            (* loops.rs repeat / repeat_impl: the operand runs under without_fill *)
+            match iter_ao mk sg with
+            | Some (na, no) => iter_exec (without_fill_body (ex f)) (mk_tag mk) na no (sa sg) (so sg) s
+            | None => Unk end
         | (MSpawn | MPool), [(sg, _)] =>
             (* the operand runs on another thread's stacks: here only the arguments go and a handle comes *)
             iter_exec (fun s => Unk) (mk_tag mk) (sa sg) 1 0 0 s
@@ -314,6 +329,7 @@ Section Exec.
 End Exec.
 
 (** * A concrete instance on integers, for the correspondence check *)
+Definition lastn {A} (k : nat) (l : list A) : list A := skipn (length l - k) l.
 Definition b2z (b : bool) : sval := SInt (if b then 1 else 0)%Z.
 Definition zsem (id : N) (_ : option (list sval)) (args : list sval) : option (list sval) :=
   match id, args with
@@ -339,8 +355,18 @@ Definition zsem (id : N) (_ : option (list sval)) (args : list sval) : option (l
   | 20%N, [SInt a] => Some [SInt (Z.sgn a)]
   (* iteration over scalars: rows / each / table of scalars run the operand once on the scalars
      themselves; reducing a scalar returns it without running the operand *)
+  | 900001%N, SInt 13 :: _ :: _ :: SInt n :: _ => Some [SInt n]
   | 900001%N, SInt tag :: _ => Some [SInt (if Z.eqb tag 1 then 0 else 1)]
+  (* repeat: the previous outputs on top of the preserved deeper arguments *)
+  | 900002%N, SInt 13 :: SInt _ :: SInt fo :: SInt i :: SInt na :: rest =>
+      let args0 := tl (firstn (Z.to_nat na) rest) in
+      let acc := skipn (Z.to_nat na) rest in
+      Some (if Z.eqb i 0 then args0 else lastn (Z.to_nat fo) acc ++ skipn (Z.to_nat fo) args0)
   | 900002%N, SInt _ :: SInt _ :: SInt _ :: SInt _ :: SInt na :: rest => Some (firstn (Z.to_nat na) rest)
+  | 900003%N, SInt 13 :: SInt _ :: SInt fo :: SInt na :: rest =>
+      let args0 := tl (firstn (Z.to_nat na) rest) in
+      let acc := skipn (Z.to_nat na) rest in
+      Some (match acc with [] => firstn (Z.to_nat fo) args0 | _ => lastn (Z.to_nat fo) acc end)
   | 900003%N, SInt tag :: SInt _ :: SInt _ :: SInt na :: rest =>
       Some (if Z.eqb tag 1 then firstn (Z.to_nat na) rest else skipn (Z.to_nat na) rest)
   | _, _ => None
@@ -355,7 +381,8 @@ Definition zknown (id : N) (args : list sval) : bool :=
    | SInt tag :: SInt fa :: SInt fo :: x :: vals =>
        forallb is_int (x :: vals) &&
        (Z.eqb tag 4 || Z.eqb tag 5 || Z.eqb tag 7 ||
-        (Z.eqb tag 1 && Z.eqb fa 2 && Z.eqb fo 1 && match vals with [] => true | _ => false end))
+        (Z.eqb tag 1 && Z.eqb fa 2 && Z.eqb fo 1 && match vals with [] => true | _ => false end) ||
+        (Z.eqb tag 13 && (fo <=? fa)%Z && match x with SInt n => (0 <=? n)%Z && (n <=? 64)%Z | _ => false end))
    | _ => false end).
 Definition no_arr (_ : bool) (_ : list sval) : option sval := None.
 Definition no_unpack (_ : nat) (_ : bool) (_ : sval) : option (list sval) := None.
